@@ -95,6 +95,9 @@ def r15_1(ctx: Ctx, rep: Report) -> None:
     rep.require(len(loops) >= 3, "Acl.group no longer has its three loops (flatten, bucket, build)")
     # flatten loop: iterates self._items
     flat = [l for l in loops if src(l.ast.iter) in ("self._items", "self.items")]
+    # the flatten loop is the one that fills a local list (another loop over the items may only look at them)
+    filling = [l for l in flat if any(isinstance(n, ast.Call) and isinstance(n.func, ast.Attribute) and n.func.attr in ("append", "extend") and isinstance(n.func.value, ast.Name) for n in own_nodes(l.ast))]
+    flat = filling or flat
     rep.require(bool(flat), "Acl.group: flatten loop over self._items vanished")
     linear_loop(ctx, rep, g, flat[0], "flatten")
     flat_acc = None
@@ -637,7 +640,7 @@ def block_key_is_heading(ctx: Ctx, rep: Report, rid: str = "R15.12") -> None:
     from .common import single_env
 
     rep.rule(rid)
-    f = ctx.func("Acl.group")
+    f = _group_func(ctx)  # helpers of the grouping (flatten, split by remark) are read in place
     env = single_env(f.node)
     n = 0
     for lp in [x for x in own_nodes(f.node) if isinstance(x, ast.For) and isinstance(x.target, ast.Name)]:
@@ -667,7 +670,7 @@ def heading_test_is_prefix(ctx: Ctx, rep: Report, rid: str = "R15.15") -> None:
     """A remark opens a block exactly when its text starts with the `group_by` string as given (blanks included): the
     test is `<remark>.text.startswith(group_by)` on the parameter itself, not on a stripped or otherwise changed copy."""
     rep.rule(rid)
-    f = ctx.func("Acl.group")
+    f = _group_func(ctx)
     gb = "group_by" if "group_by" in f.params else (f.params[1] if len(f.params) > 1 else None)
     rep.require(gb is not None, "Acl.group lost its group_by parameter")
     rebound = [x for x in own_nodes(f.node) if isinstance(x, ast.Name) and x.id == gb and isinstance(x.ctx, ast.Store)]
